@@ -17,4 +17,5 @@ import TrimeshVerif.Props.C16
 import TrimeshVerif.Props.C17
 import TrimeshVerif.Props.C18
 import TrimeshVerif.Props.C19
+import TrimeshVerif.Props.C20
 import TrimeshVerif.Model.MassRat
